@@ -2,7 +2,11 @@
 
 package hessian
 
-import "errors"
+import (
+	"errors"
+	"io"
+	"time"
+)
 
 var errVFault = errors.New("injected write fault")
 
@@ -50,6 +54,20 @@ type ZRefHolder struct {
 	M map[string]int32
 }
 
+// vFaultByteWriter is a destination that also offers WriteByte and WriteString (as bufio.Writer, bytes.Buffer and
+// strings.Builder do): every call of any of the three is one write event with the same fault schedule.
+type vFaultByteWriter struct{ vFaultWriter }
+
+func (w *vFaultByteWriter) WriteByte(c byte) error {
+	n, err := w.vFaultWriter.Write([]byte{c})
+	if err == nil && n < 1 {
+		return errVFault // WriteByte cannot report a short count: a destination that took nothing says so
+	}
+	return err
+}
+
+func (w *vFaultByteWriter) WriteString(s string) (int, error) { return w.vFaultWriter.Write([]byte(s)) }
+
 func vC15Value(which int) (interface{}, map[string]string) {
 	switch which {
 	case 0:
@@ -79,6 +97,12 @@ func vC15Value(which int) (interface{}, map[string]string) {
 		v := &ZOuter{A: 1, In: ZInner{N: 2, S: "i"}, Z: 3}
 		_, nm := vExtract(v)
 		return v, nm
+	case 11: // timestamps: on their own path to the writer
+		v := &ZTimes{A: 1, T: time.Unix(int64(vInt32("x")), 5000000), Ts: []time.Time{time.Unix(7, 0), {}}}
+		_, nm := vExtract(v)
+		return v, nm
+	case 12:
+		return []interface{}{time.Unix(int64(vInt32("x")), 0), 2.5, int64(1) << 40, true, nil}, map[string]string{}
 	case 9:
 		b := make([]byte, 8292) // three chunks
 		b[5000] = byte(vInt32("x"))
@@ -98,18 +122,31 @@ func vC15Value(which int) (interface{}, map[string]string) {
 // H_C15_fault: for every value, every index k of the k-th Write made while encoding it, and every fault
 // kind: if the fault fired, the encode call reports an error.
 func H_C15_fault() {
-	which := vChoice("value", 11)
+	which := vChoice("value", 13)
 	v, nm := vC15Value(which)
-	// fault-free run: count the Write calls
-	w0 := &vFaultWriter{failAt: -1}
+	rich := vChoice("destination", 2) == 1 // a plain io.Writer, or one that offers WriteByte / WriteString too
+	// fault-free run: count the write events
+	var w0 io.Writer
+	c0 := &vFaultWriter{failAt: -1}
+	w0 = c0
+	if rich {
+		r := &vFaultByteWriter{vFaultWriter{failAt: -1}}
+		w0, c0 = r, &r.vFaultWriter
+	}
 	e0 := NewEncoder(nil, nm)
 	err0 := e0.WriteTo(w0, v)
-	vAssert("faultfree-ok", err0 == nil && !w0.fired)
-	W := w0.n
+	vAssert("faultfree-ok", err0 == nil && !c0.fired)
+	W := c0.n
 	vAssume(W > 0)
 	k := vChoice("k", W)
 	kind := vChoice("kind", 4)
-	w := &vFaultWriter{failAt: k, kind: kind}
+	var w io.Writer
+	st := &vFaultWriter{failAt: k, kind: kind}
+	w = st
+	if rich {
+		r := &vFaultByteWriter{vFaultWriter{failAt: k, kind: kind}}
+		w, st = r, &r.vFaultWriter
+	}
 	var err error
 	switch vChoice("entry", 3) {
 	case 0:
@@ -119,7 +156,7 @@ func H_C15_fault() {
 	default:
 		err = NewSerializer(nil, nm).WriteTo(w, v)
 	}
-	if w.fired {
+	if st.fired {
 		vAssert("fault-surfaces", err != nil)
 	} else {
 		vAssert("no-fault-no-error", err == nil)
